@@ -164,7 +164,7 @@ def gen_config(rng):
     if tail:
         rules.append(tail)
     return {'rules': rules, 'scheme': rng.choice(SCHEMES), 'policy': rng.choice(POLICIES),
-            'nao': rng.random() < 0.3, 'cls': rng.choice(['chunks', 'str']), 'u2l': rng.random() < 0.5}
+            'nao': rng.random() < 0.3, 'cls': rng.choice(['chunks', 'str']), 'u2l': rng.random() < 0.5, 'warn': rng.random() < 0.3}
 
 
 def make_encoder(cfg, real, cls):
@@ -173,7 +173,7 @@ def make_encoder(cfg, real, cls):
     if policy == 'callable':
         policy = unk_callable_u2l if cfg.get('u2l') else unk_callable
     kw = dict(conversion_rules=real, replacement_latex_protection=scheme, unknown_char_policy=policy,
-              non_ascii_only=cfg['nao'], unknown_char_warning=False)
+              non_ascii_only=cfg['nao'], unknown_char_warning=bool(cfg.get('warn', False)))
     if cls == 'chunks':
         kw['latex_string_class'] = Chunks
     return UnicodeToLatexEncoder(**kw)
